@@ -3,14 +3,29 @@ targets, audits, evidence, known findings, replay files."""
 import fcntl, hashlib, json, os, re, subprocess, sys, time
 
 VERIF = os.path.dirname(os.path.dirname(os.path.abspath(__file__)))
-REPO = "/repo"
+# The tree under verification.  Always /repo for the registered checks; VERIF_REPO lets the lead point the
+# whole machinery at a scratch worktree when trying seeded changes without disturbing /repo.
+REPO = os.environ.get("VERIF_REPO", "/repo")
+ALT = os.environ.get("VERIF_REPO", "/repo") != "/repo"
 WORK = os.path.join(VERIF, ".work")
-COQ = os.path.join(VERIF, "coq")
-HARNESS_DIR = os.path.join(VERIF, "harness")
-TARGET = os.path.join(WORK, "target")
+if ALT:
+    WORK = os.path.join(WORK, "alt", hashlib.sha256(os.environ["VERIF_REPO"].encode()).hexdigest()[:8])
+# alt runs get their own copy of the Coq tree (gen/Tables*.v differ), evidence and replays
+COQ = os.path.join(WORK, "coq") if ALT else os.path.join(VERIF, "coq")
+OUT = WORK if ALT else VERIF
+HARNESS_SRC = os.path.join(VERIF, "harness")
+if not ALT:
+    HARNESS_DIR = HARNESS_SRC
+    TARGET = os.path.join(WORK, "target")
+else:
+    HARNESS_DIR = os.path.join(WORK, "harness")
+    TARGET = os.path.join(WORK, "target")
 ENV = dict(os.environ, CARGO_NET_OFFLINE="true", RUST_BACKTRACE="0")
 
 os.makedirs(WORK, exist_ok=True)
+if ALT:
+    subprocess.run(["rsync", "-a", "--exclude", "gen/Tables*.v", "--exclude", "gen/Tables*.vo*", "--exclude", "gen/*.glob",
+                    os.path.join(VERIF, "coq") + "/", COQ + "/"], check=True)
 
 
 class Lock:
@@ -37,6 +52,8 @@ def sh(cmd, cwd=None, timeout=3600, env=None, input=None):
 # ---------------------------------------------------------------- harness
 def build_harness(profile="dev", bin="gverif"):
     """Incremental cargo build of /verif/harness against /repo's working tree."""
+    if HARNESS_DIR != HARNESS_SRC:
+        _sync_alt_harness()
     with Lock("cargo"):
         lock_src = os.path.join(REPO, "Cargo.lock")
         lock_dst = os.path.join(HARNESS_DIR, "Cargo.lock")
@@ -53,6 +70,27 @@ def build_harness(profile="dev", bin="gverif"):
             raise SystemExit("harness build failed (profile %s)" % profile)
         d = "debug" if profile == "dev" else profile
         return os.path.join(TARGET, d, bin), time.time() - t0
+
+
+def _sync_alt_harness():
+    """copy of the harness crate whose path dependencies point at VERIF_REPO, with its own target dir"""
+    import shutil
+    os.makedirs(HARNESS_DIR, exist_ok=True)
+    for root, dirs, files in os.walk(HARNESS_SRC):
+        rel = os.path.relpath(root, HARNESS_SRC)
+        if rel.startswith("target"):
+            continue
+        os.makedirs(os.path.join(HARNESS_DIR, rel), exist_ok=True)
+        for f in files:
+            src = os.path.join(root, f)
+            dst = os.path.join(HARNESS_DIR, rel, f)
+            data = open(src, "rb").read()
+            if f in ("Cargo.toml", "config.toml"):
+                data = data.replace(b"/repo/", REPO.encode() + b"/").replace(b"/verif/.work/target", TARGET.encode())
+            if f == "Cargo.lock":
+                continue
+            if not os.path.exists(dst) or open(dst, "rb").read() != data:
+                open(dst, "wb").write(data)
 
 
 def run_harness(binpath, sub, cases, timeout=600, per_case_restart=True):
@@ -323,7 +361,7 @@ def known_findings():
 
 
 def write_replay(pid, payload):
-    d = os.path.join(VERIF, "replays", pid)
+    d = os.path.join(OUT, "replays", pid)
     os.makedirs(d, exist_ok=True)
     blob = json.dumps(payload, indent=1, sort_keys=True, default=str)
     h = hashlib.sha256(blob.encode()).hexdigest()[:12]
@@ -333,11 +371,11 @@ def write_replay(pid, payload):
 
 
 def write_evidence(pid, tier, seed, coverage, assumptions, wall, violations, level="proof"):
-    os.makedirs(os.path.join(VERIF, "evidence"), exist_ok=True)
+    os.makedirs(os.path.join(OUT, "evidence"), exist_ok=True)
     ev = {"property_id": pid, "tier": tier, "seed": int(seed), "level": level,
           "coverage": coverage, "assumptions": assumptions, "wall_s": round(wall, 2),
           "violations": int(violations)}
-    open(os.path.join(VERIF, "evidence", pid + ".json"), "w").write(json.dumps(ev, indent=1, default=str))
+    open(os.path.join(OUT, "evidence", pid + ".json"), "w").write(json.dumps(ev, indent=1, default=str))
     return ev
 
 
